@@ -29,7 +29,7 @@ ASSUMPTIONS = [
     "files are UTF-8 and the process runs with PYTHONUTF8=1",
     "an explicit offset index lists valid line-start byte offsets of the file",
 ]
-NCASES = {"quick": 2400, "thorough": 40000}
+NCASES = {"quick": 4800, "thorough": 300000}
 NSHARDS = 16
 SHARD_TIMEOUT = {"quick": 900, "thorough": 3600}
 MOD = "vf.checks.c11"
